@@ -60,7 +60,10 @@ Bodies == {
   SetV(TRUE, <<B(<<"a'">>, IntV(1)), B(<<"a b">>, IntV(2)), B(<<"s">>, SetV(FALSE, <<B(<<"x.y">>, IntV(1))>>))>>),   \* names that need quoting
   SetV(TRUE, <<B(<<"s">>, SetV(TRUE, <<B(<<"t">>, SetV(TRUE, <<B(<<"x">>, IntV(1))>>)), B(<<"y">>, IntV(2))>>))>>),        \* three levels
   SetV(FALSE, <<B(<<"a">>, IntV(1)), B(<<"b">>, IntV(2))>>),                                          \* inline, two bindings
-  [SetV(TRUE, <<B(<<"a">>, IntV(1))>>) EXCEPT !.dang = <<"L:dangling">>]                               \* comment before the closing brace
+  [SetV(TRUE, <<B(<<"a">>, IntV(1))>>) EXCEPT !.dang = <<"L:dangling">>],                              \* comment before the closing brace
+  SetV(TRUE, <<B(<<"m">>, SetV(FALSE, <<B(<<"x">>, IntV(1))>>)), B(<<"m", "b">>, IntV(2)), B(<<"a">>, IntV(1))>>),       \* explicit + attrpath for one root
+  SetV(TRUE, <<B(<<"f", "g", "x">>, IntV(1)), B(<<"f", "g", "y">>, IntV(2)), B(<<"a">>, IntV(1))>>),                    \* family sharing a 2-segment prefix
+  SetV(TRUE, <<B(<<"s">>, SetV(FALSE, <<B(<<"x">>, IntV(1))>>)), BC(<<"a">>, IntV(1), <<>>, "L:eol a", FALSE)>>)          \* inline nested set in a multi-line set
 }
 \* bodies for the mapping API (C14): its keys are names as SPELLED in the file, so names that need quoting and
 \* inherited names (readable, but not deletable through the mapping) are left to C12 / C11
@@ -99,6 +102,7 @@ RelevantPaths(I) ==
       \cup { <<"z">>, <<"z", "y">>, <<"z", "y", "x">> }                    \* fresh
       \cup { p \o <<"q">> : p \in defs }                                     \* below an existing path
       \cup { SubSeq(p, 1, Len(p) - 1) \o <<"n">> : p \in {q \in defs : Len(q) > 1} }   \* fresh sibling in a family / set
+      \cup { SubSeq(p, 1, Len(p) - 1) \o <<"n", "m">> : p \in {q \in defs : Len(q) > 1} } \* two fresh segments below an existing set
 NewValues == { IntV(7), SetV(FALSE, <<B(<<"k">>, IntV(7))>>), OpqV("[ 1 2 ]") }
 
 Ops(d) ==
